@@ -549,6 +549,62 @@ func (c *Ctx) predicateRepairAgreement() {
 	if len(pairs) == 0 {
 		return
 	}
+	// and the reconcile function asks for the repair whenever one of the predicates fails: from the test of the
+	// predicates in the wanted loop, with one of them false, the iteration does not end without the pod update
+	if r := c.ReconcileRoles(); r != nil && r.WLoop != nil && len(r.Updates) > 0 {
+		preds := map[*types.Func]bool{}
+		for _, pr := range pairs {
+			preds[pr.pred] = true
+		}
+		rinfo := r.FI.Pkg.TypesInfo
+		fn, an := r.Fn, r.An
+		var upd *ast.CallExpr
+		for _, u := range r.Updates {
+			if contains(r.WLoop, u) {
+				upd = u
+			}
+		}
+		var test *ast.IfStmt
+		var calls []*ast.CallExpr
+		if upd != nil {
+			ownNodes(r.WLoop.Body, func(x ast.Node) {
+				ifs, ok := x.(*ast.IfStmt)
+				if !ok || ifs.Pos() > upd.Pos() {
+					return
+				}
+				var here []*ast.CallExpr
+				for _, call := range callsIn(ifs.Cond, false) {
+					if f := gf.StaticCallee(rinfo, call); f != nil && preds[f.Origin()] {
+						here = append(here, call)
+					}
+				}
+				if len(here) > 0 {
+					test, calls = ifs, here
+				}
+			})
+		}
+		name := r.FI.Obj.Name() + ": repair of identity and storage"
+		if test == nil || upd == nil {
+			c.Unk("C02.5-repair-asked-for-when-a-predicate-fails", name, r.WLoop.Pos(), "no test of the identity/storage predicates before the pod update in the wanted loop")
+		} else {
+			seenPred := map[*types.Func]bool{}
+			var fails []*gf.Formula
+			for _, call := range calls {
+				seenPred[gf.StaticCallee(rinfo, call).Origin()] = true
+				fails = append(fails, gf.Not(fn.Formula(call)))
+			}
+			allSeen := true
+			for p := range preds {
+				if !seenPred[p] {
+					allSeen = false
+				}
+			}
+			aU := fn.FromUntil(test, an.StateBefore(test).Assume(gf.Or(fails...)), upd)
+			head := loopHead(fn, r.WLoop)
+			c.Check(allSeen && head != nil && !aU.BlockReached(head), "C02.5-repair-asked-for-when-a-predicate-fails", name, test.Pos(),
+				"with a failing predicate the iteration reaches UpdateStatefulPod", "a pod whose identity or storage does not match can be passed over without the repair: it keeps the wrong name, labels or volumes for good")
+		}
+	}
 	podOwner := func(o string) bool {
 		return strings.HasPrefix(o, "k8s.io/api/core/v1.") || strings.HasPrefix(o, "k8s.io/apimachinery/pkg/apis/meta/v1.ObjectMeta")
 	}
@@ -607,6 +663,62 @@ func (c *Ctx) predicateRepairAgreement() {
 		for _, r := range reads {
 			if !covered(r) {
 				missing = append(missing, r)
+			}
+		}
+		// the other way round, where the predicate is one expression: every field the repair assigns at its top level is
+		// a term of that expression, else a pod that is wrong only there is never repaired (the predicate holds)
+		if pfi, rfi := c.P.FuncInfoOf(pr.pred), c.P.FuncInfoOf(pr.repair); pfi != nil && rfi != nil && len(pfi.Decl.Body.List) >= 1 {
+			nRet := 0
+			ownNodes(pfi.Decl.Body, func(x ast.Node) {
+				if _, isRet := x.(*ast.ReturnStmt); isRet {
+					nRet++
+				}
+			})
+			if ret, ok := pfi.Decl.Body.List[len(pfi.Decl.Body.List)-1].(*ast.ReturnStmt); ok && len(ret.Results) == 1 && nRet == 1 {
+				pfn := c.E.FnOf(pfi)
+				pf := pfn.Formula(ret.Results[0])
+				var pps, rps []*ast.Ident
+				for _, f := range pfi.Decl.Type.Params.List {
+					pps = append(pps, f.Names...)
+				}
+				for _, f := range rfi.Decl.Type.Params.List {
+					rps = append(rps, f.Names...)
+				}
+				if len(pps) == len(rps) {
+					rinfo := rfi.Pkg.TypesInfo
+					var unread []string
+					for _, st := range rfi.Decl.Body.List {
+						as, ok := st.(*ast.AssignStmt)
+						if !ok || len(as.Lhs) != 1 {
+							continue
+						}
+						root := rootIdent(as.Lhs[0])
+						k := -1
+						for i, rp := range rps {
+							if root != nil && rinfo.ObjectOf(root) == rinfo.ObjectOf(rp) {
+								k = i
+							}
+						}
+						if k < 0 || ast.Unparen(as.Lhs[0]) == ast.Expr(root) {
+							continue
+						}
+						// the same field of the predicate's parameter
+						txt := fullExprString(c.P.Fset, as.Lhs[0])
+						if !strings.HasPrefix(txt, root.Name) {
+							continue
+						}
+						lt := c.TryWantTerm(pfn, ret.Pos(), "$1"+txt[len(root.Name):], pps[k])
+						if lt == nil {
+							continue
+						}
+						if !formulaMentions(pf, lt.Key()) {
+							unread = append(unread, txt)
+						}
+					}
+					c.Check(len(unread) == 0, "C02.5-repair-predicate-agreement", fmt.Sprintf("UpdateStatefulPod: %s -> !%s", pr.repair.Name(), pr.pred.Name()), up.Decl.Pos(),
+						"every pod field the repair assigns is a term of its predicate",
+						"the repair "+pr.repair.Name()+" sets "+strings.Join(unread, ", ")+", which its predicate "+pr.pred.Name()+" does not look at: a pod wrong only there is never repaired")
+				}
 			}
 		}
 		c.Check(len(missing) == 0 && len(reads) > 0, "C02.5-predicate-repair-agreement", fmt.Sprintf("UpdateStatefulPod: !%s -> %s", pr.pred.Name(), pr.repair.Name()), up.Decl.Pos(),
@@ -672,4 +784,24 @@ func (c *Ctx) leafField(owner, field string) bool {
 		}
 	}
 	return true
+}
+
+// formulaMentions: some atom of f contains a term with this key.
+func formulaMentions(f *gf.Formula, key string) bool {
+	if f == nil {
+		return false
+	}
+	if f.Op == 'A' && f.Atom != nil {
+		for _, t := range f.Atom.Terms() {
+			if t.Mentions(func(s *gf.Term) bool { return s.Key() == key }) {
+				return true
+			}
+		}
+	}
+	for _, s := range f.Sub {
+		if formulaMentions(s, key) {
+			return true
+		}
+	}
+	return false
 }
